@@ -30,6 +30,7 @@ use lance_core::utils::mask::RowIdTreeMap;
 use lance_file::version::LanceFileVersion;
 use lance_index::metrics::NoOpMetricsCollector;
 use lance_io::utils::CachedFileSize;
+use lance_table::feature_flags::can_write_dataset;
 use lance_table::format::{
     is_detached_version, pb, DataStorageFormat, DeletionFile, Fragment, IndexMetadata, Manifest,
     WriterVersion, DETACHED_VERSION_MASK,
@@ -804,6 +805,20 @@ pub(crate) async fn commit_transaction(
             }
 
             transaction = rebase.finish(&dataset).await?;
+        }
+
+        // Every write path commits through here, on top of `dataset` (the latest version):
+        // refuse a table whose writer flags this version of Lance does not understand.
+        if !can_write_dataset(dataset.manifest.writer_feature_flags) {
+            return Err(Error::NotSupported {
+                source: format!(
+                    "This dataset cannot be written by this version of Lance. \
+                     Please upgrade Lance to write to this dataset.\n Flags: {}",
+                    dataset.manifest.writer_feature_flags
+                )
+                .into(),
+                location: location!(),
+            });
         }
 
         let transaction_file = if !write_config.disable_transaction_file() {
